@@ -536,14 +536,17 @@ Fixpoint known_steps (p : pstate) (done : list obs) (l : list obs) : bool :=
   | [] => false
   | Obs o code snap :: r =>
       let rp := op_rep o in
+      let old := snd (pget p rp) in
       let hit := match o with
                  | ORepl to from _ =>
-                     accepted code &&
-                     misrepresented (last_trim from done)
-                                    (fst (pget p to)) (fst (pget p from))
+                     accepted code && stale_pair (pget p to) (pget p from) &&
+                     misrepresented (last_trim from done) (fst (pget p to)) (fst (pget p from))
                  | _ => false end in
-      hit || known_steps (psetn (N.to_nat rp) (snap, []) p) (done ++ [Obs o code snap]) r
+      hit || known_steps (psetn (N.to_nat rp) (snap, union old (tombs_of snap)) p) (done ++ [Obs o code snap]) r
   end.
 
+(* the class: a replication step that is accepted between a side that has reaped a deletion and a side that never
+   saw it (the property's refusal sentence fails there) AND whose windows were misrepresented in one of the three
+   ways above.  A failure of the property with honest windows is NOT in the class. *)
 Definition known (c : case) : bool :=
-  match c with CHist init steps => known_steps (map (fun r => (r, [])) init) [] steps end.
+  match c with CHist init steps => known_steps (map (fun r => (r, tombs_of r)) init) [] steps end.
